@@ -134,6 +134,12 @@ def build_problem(rng, small=False):
                 t['Hotspot']['clad']['subfactors'] = wl.choose(
                     rng, ['fftf_clad_mw', 'crbr_fuel_clad_mw'])
                 feats['hotspot'] = True
+    feats['grids'] = 0
+    for nm in names:
+        t = P['types'][nm]
+        if not t.get('use_low_fidelity_model') and rng.random() < 0.4:
+            # spacer grids (their positions are a list of the parsed input)
+            feats['grids'] += len(wl.add_spacer_grid(rng, P, nm))
     P['setup_sub']['Dump'] = {'coolant': True, 'duct': True,
                               'average': True, 'maximum': True,
                               'pins': bool(feats['pin']),
@@ -311,6 +317,7 @@ def run_history(case, res):
     res.tag('assembly_tables=%s' % bool(feats.get('tables')))
     res.tag('units=%s' % ('SI' if not feats.get('units') else 'user'))
     res.tag('hotspot=%s' % bool(feats.get('hotspot')))
+    res.tag('spacer_grids=%s' % bool(feats.get('grids')))
     if feats['pin']:
         res.nontrivial(repr(sorted((k, str(v)) for k, v in feats.items())))
     elif len(results) == 3:
